@@ -363,7 +363,10 @@ FOR_LOOP:
 			// NOTE: we can probably make this more efficient, but note that calling
 			// first.Hash() doesn't verify the tx contents, so MakePartSet() is
 			// currently necessary.
-			err := state.Validators.VerifyCommitLight(
+			// All signatures are verified, not only the first +2/3: this commit is stored as the
+			// seen commit of `first`, and consensus later rebuilds its vote set from it and
+			// panics on any entry that does not verify.
+			err := state.Validators.VerifyCommit(
 				chainID, firstID, first.Height, second.LastCommit)
 
 			if err == nil {
